@@ -121,7 +121,7 @@ Proof.
   { intros H. unfold handler. cbn [under_root root_after]. rewrite under_root_app, root_after_app.
     destruct (plain_ops_root (c_id c) (c_script c) H 0) as [-> ->]. cbn. auto. }
   assert (Hrr : Nat.eqb L_root L_root = true) by apply Nat.eqb_refl.
-  destruct (c_kind c); try discriminate; try reflexivity; destruct (Hh Hp) as [H1 H2];
+  destruct (c_kind c); try discriminate; try reflexivity; destruct (Hh Hp) as [H1 H2]; destruct (c_noreply c);
     cbn [app under_root]; rewrite ?iface_not_root, ?props_not_root, ?Hrr; cbn [under_root];
     rewrite ?iface_not_root, ?props_not_root, ?Hrr;
     repeat (rewrite under_root_app, ?H1, ?H2; cbn [app under_root]; rewrite ?root_after_app, ?H2);
@@ -172,14 +172,8 @@ Section PlainDisc.
 
   Lemma disc_plain_body c : plain_handler c = true -> disc_gen rank sp [] (body c) = Some [].
   Proof.
-    unfold plain_handler, body. intros Hp. destruct (c_kind c); try discriminate.
-    - norm. through_handler Hp. norm. reflexivity.
-    - norm. through_handler Hp. norm. reflexivity.
-    - norm. through_handler Hp. norm. reflexivity.
-    - norm. through_handler Hp. through_handler Hp. norm. reflexivity.
-    - norm. through_handler Hp. norm. reflexivity.
-    - norm. through_handler Hp. norm. reflexivity.
-    - reflexivity.
+    unfold plain_handler, body. intros Hp. destruct (c_kind c) eqn:K; try discriminate; destruct (c_noreply c);
+      try reflexivity; norm; through_handler Hp; try (through_handler Hp); norm; reflexivity.
   Qed.
 End PlainDisc.
 
@@ -257,13 +251,13 @@ Proof.
   unfold all_done_b. rewrite Hf, Hi. cbn [is_nil]. rewrite !andb_true_r. apply forallb_forall. intros t _. now rewrite Hp.
 Qed.
 
-(* ---- non-vacuity: a burst with two inline calls (one &self, one &mut, with awaits and a registration), one spawned
+(* ---- non-vacuity: a burst with two inline calls (one &self, one &mut carrying NO_REPLY_EXPECTED; awaits and a registration), one spawned
    call and an unknown object, run to the end under two different schedules ---- *)
 Definition ex_calls : list call :=
-  [ {| c_id := 0; c_kind := KRef; c_if := 2; c_spawn := false; c_script := [OAwait 2; OAt] |};
-    {| c_id := 1; c_kind := KMut; c_if := 0; c_spawn := true; c_script := [OAwait 1; ORemove] |};
-    {| c_id := 2; c_kind := KMut; c_if := 2; c_spawn := false; c_script := [OAwait 3] |};
-    {| c_id := 3; c_kind := KUnknown; c_if := 0; c_spawn := false; c_script := [] |} ].
+  [ {| c_id := 0; c_kind := KRef; c_if := 2; c_spawn := false; c_noreply := false; c_script := [OAwait 2; OAt] |};
+    {| c_id := 1; c_kind := KMut; c_if := 0; c_spawn := true; c_noreply := false; c_script := [OAwait 1; ORemove] |};
+    {| c_id := 2; c_kind := KMut; c_if := 2; c_spawn := false; c_noreply := true; c_script := [OAwait 3] |};
+    {| c_id := 3; c_kind := KUnknown; c_if := 0; c_spawn := false; c_noreply := false; c_script := [] |} ].
 
 Example ex_nodup : NoDup (map c_id ex_calls).
 Proof. cbn. repeat constructor; cbn; intuition discriminate. Qed.
